@@ -104,6 +104,13 @@ def rule_clamp(ctx):
                    "q clamped into [flex[:,0], flex[:,1]]" if ok else f"`{norm(st, 120)}`: lower / upper bound columns are not (0, 1)", fi.loc(st))
     if not found:
         ctx.fail("_saturate: clamp of q_pu not found")
+    # the clamp runs as soon as ANY element is outside its area
+    g = next((n for n in ast.walk(fi.node) if isinstance(n, ast.If) and "in_area" in norm(n.test, 60) and any(isinstance(x, ast.Assign) and "q_pu" in norm(x.targets[0], 30) for x in ast.walk(n))), None)
+    t = norm(g.test, 60).replace(" ", "") if g is not None else ""
+    ok = t in ("notall(in_area)", "notnp.all(in_area)", "any(~in_area)", "np.any(~in_area)", "(~in_area).any()", "notin_area.all()")
+    ctx.ob(R, f"{DC}::DERController._saturate::clamp-guard", ok,
+           f"clamp entered when `{t}`" if ok else f"clamp entered only when `{t}`: with some elements inside and some outside the area the outside ones are "
+           "not clamped", fi.loc(g) if g is not None else fi.loc())
     fa = ctx.repo.func(f"{PA}:BaseArea.in_area")
     rt = [n for n in ast.walk(fa.node) if isinstance(n, ast.Return)]
     t = norm(rt[0].value, 120).replace(" ", "") if rt else ""
@@ -127,6 +134,13 @@ def rule_disc(ctx):
     tt = norm(t.value, 80).replace(" ", "") if t else ""
     ok = tt in ("p_pu**2+q_pu**2>sat_s_pu**2", "q_pu**2+p_pu**2>sat_s_pu**2", "sat_s_pu**2<p_pu**2+q_pu**2")
     ctx.ob(R, f"{DC}::DERController._saturate_sn_mva_step::selection", ok, f"to_saturate = {tt}", fi.loc())
+    # single exit: every element is saturated on its own limit, no early return for the whole controller
+    rets = [n for n in ast.walk(fi.node) if isinstance(n, ast.Return)]
+    ok = len(rets) == 1 and rets[0] is fi.node.body[-1]
+    ctx.ob(R, f"{DC}::DERController._saturate_sn_mva_step::single-exit", ok,
+           "one return, after the per-element selection" if ok else
+           f"early `{norm(rets[0], 40)}` at line {rets[0].lineno}: a condition on some elements (e.g. one NaN limit) switches the saturation off for all",
+           fi.loc(rets[0]) if rets else fi.loc())
     # the priority branches
     prio = [n for n in ast.walk(fi.node) if isinstance(n, ast.If) and norm(n.test, 30) == "self.q_prio"]
     if not prio:
@@ -235,6 +249,8 @@ def variants(repo):
     pq = "pandapower/control/controller/pq_control.py"
     V = Variant
     return [
+        V("area clamp only when no element is inside", p, replace_once("if not all(in_area):", "if not any(in_area):"), "clamp-guard"),
+        V("saturation switched off by one NaN limit", p, replace_once("        to_saturate = p_pu ** 2 + q_pu ** 2 > sat_s_pu ** 2\n", "        if sat_s_pu.isnull().any():\n            return p_pu, q_pu\n        to_saturate = p_pu ** 2 + q_pu ** 2 > sat_s_pu ** 2\n"), "single-exit"),
         V("flexibility for all rows", p, replace_once("p_pu=p_pu[~in_area], vm_pu=vm_pu[~in_area])", "p_pu=p_pu[~in_area], vm_pu=vm_pu[in_area])"), "SAT-MASK"),
         V("q clipped with limits of all rows", p, replace_once("q_pu[to_saturate] = np.clip(q_pu[to_saturate], -sat_s_pu[to_saturate],", "q_pu[to_saturate] = np.clip(q_pu[to_saturate], -sat_s_pu,"), "SAT-MASK"),
         V("clamp columns swapped", p, replace_once("q_pu[~in_area], min_max_q_pu[:, 0]), min_max_q_pu[:, 1])", "q_pu[~in_area], min_max_q_pu[:, 1]), min_max_q_pu[:, 0])"), "q-clamp"),
